@@ -37,10 +37,20 @@ func tinyPrograms() []*Spec {
 	return out
 }
 
-// allItems registers one unbounded item per tiny program.
-func allItems(prop string, oracle func(sp *Spec, x *X, res *mcrt.Result) (string, string)) []Item {
+// allItems registers one unbounded item per tiny program named (all of them when names is empty).
+func allItems(prop string, oracle func(sp *Spec, x *X, res *mcrt.Result) (string, string), late []Op, names ...string) []Item {
 	var items []Item
 	for _, sp := range tinyPrograms() {
+		if len(names) > 0 {
+			ok := false
+			for _, n := range names {
+				ok = ok || sp.Name == "tiny-"+n
+			}
+			if !ok {
+				continue
+			}
+		}
+		sp.Late = late
 		its := specItems(prop, sp, 0, []int{mcrt.StratFIFO}, nil, oracle)
 		its[0].All, its[0].Ticks = true, 1
 		its[0].Name += "/all"
